@@ -93,6 +93,12 @@ class _Gen:
                 items.append(["null"])
             else:
                 items.append(["obj", self.vary(template)])
+        if rng.random() < 0.3:
+            # a list of the union type; maybe with an item its resolve_type cannot type,
+            # at the first / a middle / the last position
+            if rng.random() < 0.7:
+                items.insert(rng.choice([0, len(items) // 2, len(items)]), ["bad"])
+            return ["list", inn, "abs", items]
         return ["list", inn, "obj", items]
 
     def vary(self, fields):
@@ -129,6 +135,8 @@ def n_tasks(program, config):
                 walk(g)
         elif b[0] == "list":
             for it in b[3]:
+                if it[0] == "bad":       # later items are never started
+                    break
                 if it[0] == "obj":
                     for g in it[1]:
                         walk(g)
